@@ -45,6 +45,7 @@ type SpecEnv struct {
 	allocBase string // objects with ref >= allocBase are "fresh"
 	point     *ssa.BasicBlock // program point at which source names are resolved
 	atEnd     bool
+	strict    bool            // names resolve only to definitions that reach the point (defined())
 	before    ssa.Instruction // clauses attached to an instruction (sites) see the variables as they are just before it
 	inOld     bool
 	depth     int
@@ -235,7 +236,10 @@ func (env *SpecEnv) lookupInAct(name string) (TV, bool) {
 				}
 				val := nr.val
 				if a == act {
-					val = reaching(nr, env.point, env.atEnd, env.before)
+					val = reaching(nr, env.point, env.atEnd, env.before, env.strict)
+					if val == nil {
+						continue
+					}
 				}
 				if v, ok := a.env[val]; ok {
 					return TV{v, val.Type()}, true
@@ -711,6 +715,19 @@ func (env *SpecEnv) evalCall(x *ast.CallExpr) TV {
 	switch name {
 	case "__imp":
 		return boolTV(implies(env.evalBoolExpr(x.Args[0]), env.evalBoolExpr(x.Args[1])))
+	case "defined":
+		// defined(name): a variable of that name is in scope (its definition reaches this point)
+		id, ok := x.Args[0].(*ast.Ident)
+		if !ok {
+			specErr("defined(name)")
+		}
+		se := *env
+		se.strict = true
+		_, found := se.lookupInAct(id.Name)
+		if found {
+			return boolTV("true")
+		}
+		return boolTV("false")
 	case "local":
 		// local(name): the function's own variable of that name, even where a contract keyword
 		// (result, arg0, ...) shadows it
